@@ -354,16 +354,16 @@ fn drule_xml_ok(d: &ADomainRule) -> bool {
 
 // ------------------------------------------------------------------ signing (openssl CLI)
 
-struct Signer {
-  work: PathBuf,
-  cfg: PathBuf,
+pub struct Signer {
+  pub work: PathBuf,
+  pub cfg: PathBuf,
   n: usize,
-  ca_pem: String,
-  wrong_ca_pem: String,
-  id_cert_pem: String,
+  pub ca_pem: String,
+  pub wrong_ca_pem: String,
+  pub id_cert_pem: String,
 }
 impl Signer {
-  fn new(args: &Args) -> Signer {
+  pub fn new(args: &Args) -> Signer {
     // <verif>/build/c18_work  (args.out = <verif>/build/cases/<ID>[...])
     let build = args
       .out
@@ -372,7 +372,7 @@ impl Signer {
       .map(Path::to_path_buf)
       .unwrap_or_else(|| args.out.clone());
     let leaf = args.out.file_name().map(|s| s.to_string_lossy().to_string()).unwrap_or_default();
-    let work = build.join(format!("c18_work_{}", leaf));
+    let work = build.join(format!("sign_work_{}", leaf));
     let _ = fs::remove_dir_all(&work);
     fs::create_dir_all(&work).expect("mkdir work");
     let cfg = Path::new(env!("CARGO_MANIFEST_DIR")).join("examples/security_configuration_files");
@@ -387,7 +387,7 @@ impl Signer {
     }
   }
   /// openssl smime -sign -text with the shipped Permissions CA key (as sign-test-configurations.sh)
-  fn sign(&mut self, xml: &str) -> Vec<u8> {
+  pub fn sign(&mut self, xml: &str) -> Vec<u8> {
     self.n += 1;
     let inp = self.work.join(format!("doc{}.xml", self.n));
     let outp = self.work.join(format!("doc{}.p7s", self.n));
